@@ -109,3 +109,9 @@ func init() {
 	register("C01", &CheckSpec{Level: "model_checking", Assumptions: xferAssumptions, Parts: []*PartSpec{xferPart("c01", "c01", 16)}})
 	register("C02", &CheckSpec{Level: "fault_enumeration", Assumptions: append([]string{"faults are injected at byte positions of the vquic streams as written by the real code; one fault per execution"}, xferAssumptions...), Parts: []*PartSpec{xferPart("c02", "c02", 16)}})
 }
+
+func init() {
+	c06b := xferFsPart("resume-tamper", "c06", 16)
+	register("C06", &CheckSpec{Level: "fault_enumeration", Assumptions: append([]string{"damage below the highest complete chunk is not detectable by design and is not demanded (the property promises the last recorded chunk only)"}, xferAssumptions...),
+		Parts: []*PartSpec{{Name: "sidecar", Harness: "c06a", Shards: 8}, c06b}})
+}
